@@ -1,0 +1,10 @@
+//go:build verif
+
+package templates
+
+// VerifResetModelNames clears the process-global registry of generated model names, so that a verification
+// harness can replay sequences of ToGoModelName / ToGoPrivateModelName calls from a known state.
+func VerifResetModelNames() { resetModelNames() }
+
+// VerifReplaceInvalidCharacters exposes the character replacement goModelName falls back to.
+func VerifReplaceInvalidCharacters(in string) string { return replaceInvalidCharacters(in) }
